@@ -6,6 +6,7 @@ import ast
 from ..core import AnalysisError, call_name, dotted, kwarg, norm, walk_no_nested
 from ..effects import Summaries, analyse
 from ..registry import describe, rule
+from ..guards import sites
 from ..util import calls_named, peel, returns_of
 from . import shared
 
@@ -232,6 +233,19 @@ def coupled(rc):
                 it = dotted(n.generators[0].iter)
         if src != it:
             rc.fail(f, cards[0], "sum: appended cardinalities must follow the same iteration order as the appended variables", construct="sum order agreement")
+    # --- sum / divide: the other operand's axes are aligned with the result's ALWAYS (not only when variables had to be added)
+    for name in ("sum", "divide"):
+        g = cls.methods[name]
+        sw = sites(g.node, lambda n: isinstance(n, ast.Call) and call_name(n) == "swapaxes")
+        if not sw:
+            rc.fail(g, g.node, f"{name}: the second operand's axes are never permuted to the result's order", construct=f"{name} no alignment")
+        for s_ in sw:
+            bad = [norm(t) for t, pol in s_.conds if "extra_vars" in norm(t)]
+            loopsrc = [norm(it) for t, it in s_.loops]
+            rc.ob(f"{name}: axis alignment {norm(s_.node, 60)} in loop over {loopsrc}, under {[norm(t) for t, p in s_.conds]}")
+            if bad:
+                rc.fail(g, s_.node, f"{name}: axes are aligned only when {bad[0]}: two factors over the same variables in a different order are combined cell by cell "
+                        f"without alignment", construct=f"{name} alignment conditional on extra_vars")
     # --- state-name maintenance keeps its three maps together
     mix = repo.cls(SN, "StateNameMixin")
     for name, verb in (("del_state_names", "del"), ("add_state_names", "update")):
@@ -289,6 +303,9 @@ MUTANTS = [
          old="        var_index_to_keep = sorted(\n            set(range(len(phi.variables))) - set(var_index_to_del)\n        )", new="        var_index_to_keep = list(\n            set(range(len(phi.variables))) - set(var_index_to_del)\n        )"),
     dict(kind="break", name="maximize-keeps-state-names", file=DF, expect="C04.coupled",
          old="        phi.del_state_names(variables)\n        phi.values = compat_fns.max(phi.values, axis=tuple(var_indexes))", new="        phi.values = compat_fns.max(phi.values, axis=tuple(var_indexes))"),
+    dict(kind="break", name="divide-aligns-only-with-extra-vars", file=DF, expect="C04.coupled",
+         old="            phi1.variables.extend(extra_vars)\n\n        # Rearranging the axes of phi1 to match phi\n        for axis in range(phi.values.ndim):\n            exchange_index = phi1.variables.index(phi.variables[axis])\n            phi1.variables[axis], phi1.variables[exchange_index] = (\n                phi1.variables[exchange_index],\n                phi1.variables[axis],\n            )\n            phi1.values = phi1.values.swapaxes(axis, exchange_index)\n\n        phi.values = phi.values / phi1.values",
+         new="            phi1.variables.extend(extra_vars)\n\n            # Rearranging the axes of phi1 to match phi\n            for axis in range(phi.values.ndim):\n                exchange_index = phi1.variables.index(phi.variables[axis])\n                phi1.variables[axis], phi1.variables[exchange_index] = (\n                    phi1.variables[exchange_index],\n                    phi1.variables[axis],\n                )\n                phi1.values = phi1.values.swapaxes(axis, exchange_index)\n\n        phi.values = phi.values / phi1.values"),
     dict(kind="break", name="eq-permutes-other-in-place", file=DF, expect="C04.coupled",
          old="            phi = other.copy()\n            if self.variables != phi.variables:", new="            phi = other\n            if self.variables != phi.variables:"),
     dict(kind="twin", name="marginalize-explicit-branch", file=DF,
